@@ -173,6 +173,28 @@ def run_property(pid, spec, tier, seed, t0):
     # the model naturally differs from an implementation line that is only a timeout artefact: drop those too
     tot.disagreements = [d for d in tot.disagreements if (d["kind"], d["session"][-1]) not in dropped]
 
+    # a disagreement between the model and an implementation that runs real goroutines, sockets and timers (the hook
+    # kinds) must reproduce: the same session is run again alone, up to three times; if the implementation then
+    # prints what the model prints, its first output was a scheduling artefact of a loaded machine, not a difference
+    # (the property oracle has judged every run on its own anyway). Deterministic kinds always reproduce.
+    transient_dis = 0
+    if 0 < len(tot.disagreements) <= 20:
+        kept = []
+        for d in tot.disagreements:
+            same = 0
+            try:
+                for _ in range(3):
+                    go = C.run_go(d["kind"], d["session"], watchdog_ms=10000, extra_env=d.get("env"))
+                    if go[-1] is not None and go[-1][0] == d["model"]:
+                        same += 1
+                        break
+            except Exception:
+                pass
+            if same:
+                transient_dis += 1
+            else:
+                kept.append(d)
+        tot.disagreements = kept
     if tot.disagreements:
         d = tot.disagreements[0]
         broken.append("correspondence %s: model and implementation differ on %d case(s), first: %s"
@@ -243,7 +265,7 @@ def run_property(pid, spec, tier, seed, t0):
         "compared_with_model": tot.compared, "disagreements": len(tot.disagreements),
         "oracle_ok": tot.oracle_ok, "oracle_fail": len(fails), "known_findings_hit": sorted(known_hits),
         "per_kind": per_kind, "broken": broken, "search_mode_cases": searched,
-        "transient_timeouts_not_confirmed": transient,
+        "transient_timeouts_not_confirmed": transient, "transient_disagreements_not_reproduced": transient_dis,
     }
     if spec.get("exhaustive"):
         cov["exhaustive"] = True
